@@ -35,6 +35,12 @@ def gen_node_case(g):
     kind = g.choice(NODE_KINDS)
     in_dim = g.randint(1, 3)
     d = flow.gen_node(g, kind, in_dim)
+    if kind == "reservoir" and g.chance(0.35):
+        # a single-precision node, with weights that are not dyadic: whatever rounding the node applies to its state
+        # must be applied at every step, not at the boundaries of a call
+        d["dtype"] = "float32"
+        d["W"] = [[v * 1.1 for v in row] for row in d["W"]]
+        d["Win"] = [[v / 3.0 for v in row] for row in d["Win"]]
     T = g.randint(2, 10)
     return {"kind": "node", "desc": d, "U": flow.seq_rows(g, T, in_dim), "pieces": cuts(g, T),
             "as_calls": g.chance(0.3), "probe": flow.seq_rows(g, 2, in_dim)}
@@ -69,7 +75,7 @@ def check_node(ctx, c):
         ctx.violation(f"{d['kind']}: run / call raised {type(e).__name__}: {e}", c, obligation=ob)
         return
     ctx.count(c, nontrivial=len(c["pieces"]) >= 2, obligation=ob)
-    ctx.stat("node=" + d["kind"])
+    ctx.stat("node=" + d["kind"] + ("/" + d["dtype"] if d.get("dtype") else ""))
     ctx.sample({"kind": d["kind"], "T": len(c["U"]), "pieces": c["pieces"], "as_calls": c["as_calls"]})
     if whole.shape != parts.shape or not np.array_equal(whole, parts):
         t = int(np.argmax(np.any(whole != parts, axis=1))) if whole.shape == parts.shape else -1
@@ -81,7 +87,7 @@ def check_node(ctx, c):
                       "(probe run / state() differ)", c, expected=pa.tolist(), observed=pb.tolist(), obligation=ob)
         return
     # tie to the model: whole run
-    if d["kind"] in ("reservoir", "nvar", "delay"):
+    if d["kind"] in ("reservoir", "nvar", "delay") and not d.get("dtype"):     # (the exact model is about float64 / dyadic data)
         bsc = flow.Built([dict(d, ext_dim=d["in_dim"])], [])
         seq = {"X": {"0": flow.qmat(c["U"])}}
         mo = ctx.model.one(bsc.scenario([{"op": "run", "seqs": [seq]}]))
@@ -213,6 +219,12 @@ def gen_train_case(g):
          "X": flow.seq_rows(g, T, d), "Y": flow.seq_rows(g, T, o)}
     if in_model:
         c["res"] = flow.gen_node(g, "reservoir", d)
+        if g.chance(0.5):
+            # the reservoir listens to the readout it feeds; with force_teachers=False it hears the readout's own
+            # output of the previous step - also across two train() calls
+            flow.add_feedback(g, c["res"], o)
+            c["fb"] = True
+            c["force_teachers"] = False      # forced feedback restarts from zero at every call, by definition: excluded by the property
     return c
 
 
@@ -234,21 +246,26 @@ def check_train(ctx, c):
         ro = make_trainable(c)
         if c["in_model"]:
             res = flow.make_node(c["res"], flow.fresh("t"))
+            if c.get("fb"):
+                res <<= ro
             return res >> ro, ro
         return ro, ro
+    kw = {"learn_every": c["learn_every"]}
+    if c.get("fb"):
+        kw["force_teachers"] = c["force_teachers"]
     try:
         ma, ra = build()
         mb, rb = build()
-        ma.train(X, Y, learn_every=c["learn_every"])
+        ma.train(X, Y, **kw)
         pos = 0
         for n in c["pieces"]:
-            mb.train(X[pos:pos + n], Y[pos:pos + n], learn_every=c["learn_every"])
+            mb.train(X[pos:pos + n], Y[pos:pos + n], **kw)
             pos += n
     except Exception as e:  # noqa
         ctx.violation(f"online training raised {type(e).__name__}: {e}", c, obligation=ob)
         return
     ctx.count(c, nontrivial=len(c["pieces"]) >= 2, obligation=ob)
-    ctx.stat(f"train rule={c['rule']} k={c['learn_every']} in_model={c['in_model']}")
+    ctx.stat(f"train rule={c['rule']} k={c['learn_every']} in_model={c['in_model']} fb={c.get('fb', False)} forced={c.get('force_teachers')}")
     ctx.sample({k: c[k] for k in ("rule", "in_model", "learn_every", "T", "pieces", "bias")})
     for name in ("Wout", "bias") + (("P",) if "rls" in c["rule"] else ()):
         va, vb = np.asarray(getattr(ra, name), dtype=float), np.asarray(getattr(rb, name), dtype=float)
